@@ -48,6 +48,17 @@ STRATA = {
     "edit_gff": (4000, 80000),
     "general": (800, 10000),
 }
+# functions that must leave their arguments untouched (vf.core.PurityMonitor; '!' = the object itself is watched too)
+PURE = [
+    "biotite.sequence.io.fasta.convert:set_sequence",
+    "biotite.sequence.io.fasta.convert:set_sequences",
+    "biotite.sequence.io.fastq.convert:set_sequence",
+    "biotite.sequence.io.fastq.convert:set_sequences",
+    "biotite.sequence.io.genbank.sequence:set_sequence",
+    "biotite.sequence.io.genbank.sequence:set_annotated_sequence",
+    "biotite.sequence.io.genbank.annotation:set_annotation",
+    "biotite.sequence.io.gff.convert:set_annotation",
+]
 REQUIRED_ORACLES = [
     "fasta_roundtrip", "fasta_convert_roundtrip", "fasta_iter_roundtrip",
     "fastq_roundtrip", "fastq_convert_roundtrip", "fastq_iter_roundtrip",
